@@ -219,6 +219,14 @@ def build_harness(bins=None):
     return rc == 0, out
 
 
+class ImplementationPanic(Exception):
+    """the code under test panicked on a generated case (observed by the harness under catch_unwind)"""
+    def __init__(self, case, message):
+        super().__init__(message)
+        self.case = case
+        self.message = message
+
+
 def run_harness(stream, cases, workdir, extra_env=None, shards=NPROC, timeout=1200, prefix=None):
     """Run the harness on cases (list of dicts with 'id'), sharded. Returns dict id -> observed."""
     os.makedirs(workdir, exist_ok=True)
@@ -245,6 +253,11 @@ def run_harness(stream, cases, workdir, extra_env=None, shards=NPROC, timeout=12
         for res in ex.map(one, range(shards)):
             for o in res:
                 obs[o["id"]] = o
+    panics = sorted(i for i, o in obs.items() if isinstance(o, dict) and o.get("panic") is not None)
+    if panics:
+        by_id = {c["id"]: c for c in cases}
+        first = min(panics, key=lambda i: len(json.dumps(by_id[i])))
+        raise ImplementationPanic(by_id[first], f"{len(panics)} of {len(cases)} cases panicked; first: {obs[first]['panic'][:400]}")
     return obs
 
 
